@@ -386,20 +386,20 @@ func c01Shapes(c *vlib.Ctx) {
 			continue
 		}
 		seeds := cp.Seeds[t]
-		for si := 0; si < min(len(seeds), c.Pick(3, 30)); si++ {
+		for si := 0; si < min(len(seeds), c.Pick(3, 12)); si++ {
 			idx++
 			if !c.Begin(idx) {
 				continue
 			}
 			r := c.Rand(uint64(t), 31337, uint64(si))
 			seed := seeds[(si*11)%len(seeds)]
-			vs := cp.Shrinks(seed, c.Pick(160, 1200))
+			vs := cp.Shrinks(seed, c.Pick(160, 600))
 			st, _ := cp.Structural(seed)
 			vs = append(vs, st...)
-			if si < c.Pick(1, 30) {
-				vs = append(vs, cp.WordSweep(seed, c.Pick(200, 1200))...)
+			if si < c.Pick(1, 4) {
+				vs = append(vs, cp.WordSweep(seed, c.Pick(200, 600))...)
 			}
-			vs = append(vs, cp.LongRepeats(r, seed, c.Pick(3, 40), c.Pick(16384, 65536))...)
+			vs = append(vs, cp.LongRepeats(r, seed, c.Pick(3, 16), c.Pick(16384, 65536))...)
 			for _, b := range vs {
 				c01Light(c, r, t, b)
 			}
